@@ -7,5 +7,7 @@ for p in mutants/${1:-*}.patch; do
   out=$(tools/eval_seeded.sh "$PWD/$p" "$prop" quick 2>&1)
   rc=$?
   if [ $rc -eq 1 ]; then verdict=CAUGHT; elif [ $rc -eq 0 ]; then verdict=ESCAPED; else verdict="ERROR($rc)"; fi
+  # refactor-*.patch are behaviour-preserving changes: the property holds, the check must stay quiet
+  case "$(basename $p)" in refactor-*) if [ $rc -eq 0 ]; then verdict="QUIET(as it must)"; elif [ $rc -eq 1 ]; then verdict="FALSE-ALARM"; fi;; esac
   echo "$verdict $(basename $p .patch) [$prop] $(echo "$out" | grep -m1 -o 'VIOLATION.*' | cut -c1-160)"
 done
